@@ -39,6 +39,10 @@ class Skip(Exception):
     """The generated case is outside the property's domain (counted)"""
 
 
+class ShrinkBudget(Exception):
+    """Raised inside a test body to end the shrinking of a recorded violation"""
+
+
 class HarnessError(Exception):
     """The machinery itself misbehaved; never reported as a violation"""
 
@@ -277,6 +281,7 @@ def run_hypothesis(sub, tier, n, seed_value, known, rec, deadline,
     excluded = set(known)
     found = []
     attempt = 0
+    shrink_budget = max(20, int(0.5 * sub.time_cap.get(tier, 60)))
     strat = sub.strategy(tier)
     phases = [Phase.generate]
     if sub.shrink:
@@ -295,6 +300,10 @@ def run_hypothesis(sub, tier, n, seed_value, known, rec, deadline,
             if time.time() > deadline and state["target"] is None:
                 capped[0] = True
                 return
+            if state["target"] is not None and time.time() > state["shrink_until"]:
+                # shrinking is bounded in time too (slow oracles, many root causes): the smallest
+                # failing case recorded so far is reported
+                raise ShrinkBudget("shrink budget of %d s used up" % shrink_budget)
             try:
                 info = sub.oracle(case)
             except Skip:
@@ -307,6 +316,7 @@ def run_hypothesis(sub, tier, n, seed_value, known, rec, deadline,
                 if state["target"] is None:
                     state["target"] = v.signature
                     state["first"] = (case, v)
+                    state["shrink_until"] = time.time() + shrink_budget
                 if v.signature != state["target"]:
                     # another root cause: searched for in a later attempt
                     return
